@@ -4,7 +4,7 @@ namespace Msp
 
 /-- per-interval clauses: length bounds, true minimizer at the reported position, inside every
     k-mer of the interval, minimal among all p-mers of the interval -/
-def IvValid (seq : Array Nat) (sc : Nat → Nat) (k p : Nat) (iv : Iv) : Prop :=
+def IvValid (seq : Array Compress.Base) (sc : Nat → Nat) (k p : Nat) (iv : Iv) : Prop :=
   k ≤ iv.len ∧ iv.len ≤ 2 * k - p ∧ iv.mini = window seq p iv.mpos ∧
   iv.start + iv.len - k ≤ iv.mpos ∧ iv.mpos + p ≤ iv.start + k ∧
   ∀ q < iv.start + iv.len - p + 1, iv.start ≤ q → sc iv.mpos ≤ sc q
@@ -28,17 +28,17 @@ instance decChain (sc k p m) : (l : List Iv) → Decidable (ChainValid sc k p m 
     have := decChain sc k p m (iv' :: rest)
     infer_instance
 
-def HoldsC07 (seq : Array Nat) (score : List Nat → Nat) (k p : Nat) (ivs : List Iv) : Prop :=
+def HoldsC07 (seq : Array Compress.Base) (score : Compress.Seq → Nat) (k p : Nat) (ivs : List Iv) : Prop :=
   let sc := fun q => score (window seq p q)
   ivs.head?.map (·.start) = some 0 ∧ (∀ iv ∈ ivs, IvValid seq sc k p iv) ∧ ChainValid sc k p seq.size ivs
 
 instance (seq score k p ivs) : Decidable (HoldsC07 seq score k p ivs) := by unfold HoldsC07; infer_instance
 
-def holdsC07 (seq : Array Nat) (score : List Nat → Nat) (k p : Nat) (ivs : List Iv) : Bool :=
+def holdsC07 (seq : Array Compress.Base) (score : Compress.Seq → Nat) (k p : Nat) (ivs : List Iv) : Bool :=
   decide (HoldsC07 seq score k p ivs)
 
 /-- which clause fails first (for replay files); "ok" when all hold -/
-def explainC07 (seq : Array Nat) (score : List Nat → Nat) (k p : Nat) (ivs : List Iv) : String :=
+def explainC07 (seq : Array Compress.Base) (score : Compress.Seq → Nat) (k p : Nat) (ivs : List Iv) : String :=
   let sc := fun q => score (window seq p q)
   if ivs.head?.map (·.start) ≠ some 0 then "first-start-not-0"
   else if ¬ (∀ iv ∈ ivs, k ≤ iv.len ∧ iv.len ≤ 2 * k - p) then "length-bounds"
